@@ -17,15 +17,16 @@ Act(ev) ==
     [] ev.op = "bind"  -> Bind(ev.k)
     [] ev.op = "setm"  -> SetM(ev.r, ev.k, ev.via)
     [] ev.op = "call"  -> Call(ev.k)
+    [] ev.op = "spend" -> Spend(ev.a, ev.k, ev.via)
     [] ev.op = "mine"  -> Mine
 
 (* which deviation an admitted step needed: the IDEAL admission fails and the named one explains it *)
 DevOf(ev) ==
-  IF ev.op \notin {"set", "setm"} \/ ev.res # "accept" THEN {}
-  ELSE LET a == IF ev.op = "set" THEN ev.a ELSE Owner
+  IF ev.op \notin {"set", "setm", "spend"} \/ ev.res # "accept" THEN {}
+  ELSE LET a == IF ev.op = "setm" THEN Owner ELSE ev.a
            uri == Uri(a, ev.k, ev.via) IN
        IF Authorised(FALSE, a, uri) THEN {}
-       ELSE (IF conf[a] = 0 /\ KF_UnconfirmedAccountOpen THEN {"KF_UnconfirmedAccountOpen"} ELSE {})
+       ELSE (IF conf[a] = 0 /\ KF_UnconfirmedAccountOpen /\ ev.op # "spend" THEN {"KF_UnconfirmedAccountOpen"} ELSE {})
             \cup (IF conf[a] # 0 /\ KF_IntermediateAKCounts /\ Authorised(TRUE, a, uri) THEN {"KF_IntermediateAKCounts"} ELSE {})
 
 TStep ==
